@@ -35,6 +35,8 @@ VConservative(r) ==
           ELSE IF \E j \in 1..NBins(r.bins) :
                     LET L == ProdDen(r.out.W, j, 1) IN
                     r.out.lin[j][1] * L # LinSum(r.out.W, r.phi, j, L, 1) * r.out.lin[j][2] THEN "not-linear-in-data"
+          \* listing the same bins in the opposite order only reverses the output (same data, same column)
+          ELSE IF r.out.lin_rev # Rev(r.out.lin) THEN "reversed-bins-do-not-just-reverse-the-output"
           ELSE IF r.out.newdim # r.expect_newdim THEN "new-dimension-name"
           ELSE "ok"
 
